@@ -268,6 +268,11 @@ fn c13(rep: &mut Report, g: &mut G, thorough: bool) {
                 let mut cases: Vec<(&str, Result<String, String>, Result<String, String>, Vec<u8>)> = vec![];
                 cases.push(("secret", key_from::<$V, Secret>(&sk).map(|k| k.id().to_string()).map_err(|e| format!("{e:?}")),
                             AsymmetricSecretKey::<$TV>::from(&sk).map(|k| id_string(&Id::from(&k))).map_err(|e| format!("{e:?}")), sk.clone()));
+                // the PASERK text the ids are computed from (k*.secret. / k*.public.)
+                cases.push(("secret-text", key_from::<$V, Secret>(&sk).map(|k| k.expose_key().to_string()).map_err(|e| format!("{e:?}")),
+                            AsymmetricSecretKey::<$TV>::from(&sk).map(|k| { let mut s = String::new(); k.fmt(&mut s).unwrap(); s }).map_err(|e| format!("{e:?}")), sk.clone()));
+                cases.push(("public-text", key_from::<$V, Public>(&pk).map(|k| k.to_string()).map_err(|e| format!("{e:?}")),
+                            AsymmetricPublicKey::<$TV>::from(&pk).map(|k| { let mut s = String::new(); k.fmt(&mut s).unwrap(); s }).map_err(|e| format!("{e:?}")), pk.clone()));
                 cases.push(("public", key_from::<$V, Public>(&pk).map(|k| k.id().to_string()).map_err(|e| format!("{e:?}")),
                             AsymmetricPublicKey::<$TV>::from(&pk).map(|k| id_string(&Id::from(&k))).map_err(|e| format!("{e:?}")), pk.clone()));
                 if $local {
